@@ -1054,6 +1054,14 @@ class ConfigInformation:
         job_context = JobContext(self.job)
         self.validate_and_seal(job_context)
 
+        # A task that was already validated and sealed (e.g. by instance()) is
+        # not walked again: validate and seal the init tasks it was just
+        # given, at the position they have within the task
+        with job_context.push("__init_tasks__"):
+            for ix, init_task in enumerate(self.init_tasks):
+                with job_context.push(str(ix)):
+                    init_task.__xpm__.validate_and_seal(job_context)
+
         # --- Workspace
 
         workspace = workspace or (
